@@ -9,7 +9,7 @@ MANIFEST = {
             "back to receiver and name), C10_nolit_roundtrip_partial (all-literal declarations, evaluated for every n<=36), C10_digit_toIndex, "
             "C10_dispatch_unique / C10_dispatch_none (for pairwise distinguishable candidates every permutation of the listing order dispatches "
             "to the unique accepting candidate), C10_overlap_iff (the decidable predicate is exactly 'some argument type is accepted by both'), "
-            "C10_order_matters_without_hypothesis. The full statement (every call of every generated program invokes the right candidate) is NOT "
+            "C10_order_matters_without_hypothesis, C10_lambda_dispatch_unique (lambda/literal/constant arguments: order-independent when exactly one candidate accepts). The full statement (every call of every generated program invokes the right candidate) is NOT "
             "proved: the compiler as a whole is not modelled. It is searched: generated overload sets x ALL listing orders x 6 styles are compiled "
             "by the real compiler and run, with the property oracle evaluated on the program output.",
     "note": "trusted: Lean kernel; hand transcription of cl/gogen code tied by (T) translator for indexTable/binaryGopNames/overloadFuncName and "
@@ -26,7 +26,9 @@ RULE = ("overload sets of 2..5 candidates (arity 0..3 over 22 types: int,string,
         "lit/named/mixed/method/binary-operator/class-file; independent random shapes of the overloaded name and of the receiver name (no/inner/leading '_', mixed case), overload declarations before or after the type and candidates, in the same file or in files sorting before/after (plus 36 coverage sets enumerating these); every set is declared once per permutation of its listing order "
         "(n! declarations) and called with the exact parameter types of each candidate plus assignable variants; + rejected declarations "
         "(invalid method/func/recv, 36 vs 37 entries), calls no candidate accepts, and random gogen scopes/constants (const and no-const path, "
-        "missing names, holes, bad digits, 35..38 slots); non-trivial = distinct case line")
+        "missing names, holes, bad digits, 35..38 slots); + sets with func-typed parameters (arity 0..2, results none/int/(int,error), optional leading "
+        "int/string/[]int parameter, optional generic Go-file candidate) called with expression/block lambdas, func literals, typed variables and "
+        "untyped constants where exactly one candidate accepts; non-trivial = distinct case line")
 
 
 def run(ctx):
